@@ -1031,3 +1031,9 @@ B('NM-list-negative-passes', ['C04'], 'index.py', 'Index._loc_to_iloc',
   '                    if isinstance(k, INT_TYPES) and k < 0:\n                        raise KeyError(k)\n', '                    pass\n', 'I.nomap-negative-label-raises', '_loc_to_iloc')
 N('NM-element-zero-gt', ['C04'], 'index.py', 'Index._loc_to_iloc',
   '                if key < 0:\n                    raise KeyError(key)\n', '                if 0 > key:\n                    raise KeyError(key)\n')
+
+# ---------------------------------------------------------------------------------- direction of the inclusive stop (C04): today's tree has four known findings;
+# the variant checks that a direction-aware rewrite of one site is silent for this rule and for I.inclusive-stop
+N('ISD-direction-aware-label-arm', ['C04'], 'index.py', 'LocMap.map_slice_args',
+  '                if field == SLICE_STOP_ATTR:\n                    # loc selections are inclusive, so iloc gets one more\n                    pos += 1 #type: ignore\n',
+  '                if field == SLICE_STOP_ATTR:\n                    if key.step is not None and key.step < 0:\n                        pos = pos - 1 if pos > 0 else None\n                    else:\n                        pos += 1\n')
